@@ -278,13 +278,25 @@ func (w *c08world) running() map[string][2]string {
 	return out
 }
 
+func sortedNames(m map[string][2]string) []string {
+	var ns []string
+	for n := range m {
+		ns = append(ns, n)
+	}
+	sort.Strings(ns)
+	return ns
+}
+
 func (w *c08world) judge(m c08model, static bool, last c08op) (sig, detail string) {
 	exp := m.expected()
 	if static {
 		exp["static"] = [2]string{"v1", "10.0.0.1:80"}
 	}
 	got := w.running()
-	for name := range m.undetermined() {
+	for _, name := range []string{"s1", "s2"} {
+		if !m.undetermined()[name] {
+			continue
+		}
 		if g, ok := got[name]; ok {
 			// if it runs, it runs the last valid configuration with the current endpoints
 			s := m[name]
@@ -302,7 +314,8 @@ func (w *c08world) judge(m c08model, static bool, last c08op) (sig, detail strin
 			delete(got, name)
 		}
 	}
-	for name, e := range exp {
+	for _, name := range sortedNames(exp) {
+		e := exp[name]
 		g, ok := got[name]
 		switch {
 		case !ok:
@@ -317,14 +330,18 @@ func (w *c08world) judge(m c08model, static bool, last c08op) (sig, detail strin
 			return "processor-hosts-differ-from-endpoints / after " + last.Kind + c08epClass(last), fmt.Sprintf("service %s has hosts {%s}, the endpoint set is {%s}", name, g[1], e[1])
 		}
 	}
-	for name := range got {
+	for _, name := range sortedNames(got) {
 		if _, ok := exp[name]; !ok {
 			return "processor-running-for-unconfigured-service", fmt.Sprintf("service %s is running but is not a dependency with a valid config and endpoints (model %+v)", name, m[name])
 		}
 	}
 	// the store agrees with the model
 	dump := w.cfg.VerifDump(cfgName)
-	for name, s := range m {
+	for _, name := range []string{"s1", "s2"} {
+		s := m[name]
+		if s == nil {
+			continue
+		}
 		d, ok := dump[name]
 		if !ok {
 			return "store-lost-a-dependency", name
@@ -554,7 +571,8 @@ func c08streamsBody() {
 		}
 	}
 	got := w.running()
-	for name, e := range want {
+	for _, name := range sortedNames(want) {
+		e := want[name]
 		g, ok := got[name]
 		switch {
 		case !ok:
@@ -563,7 +581,7 @@ func c08streamsBody() {
 			sched.Fail("processor-differs-from-store / concurrent streams", fmt.Sprintf("plan %d: %s runs %v, store says %v", pi, name, g, e))
 		}
 	}
-	for name := range got {
+	for _, name := range sortedNames(got) {
 		if _, ok := want[name]; !ok {
 			sched.Fail("processor-running-for-service-not-in-store / concurrent streams", fmt.Sprintf("plan %d: %s is running, store table: %v", pi, name, dump))
 		}
